@@ -285,6 +285,9 @@ wait:
 	if !res.Completed {
 		return rumpOutcome{"abort", fmt.Sprintf("the run aborted: %v", res)}
 	}
+	if rumpArrivedHook != nil {
+		rumpArrivedHook(tgt)
+	}
 	if len(tgt.UnknownPayloads) > 0 {
 		return rumpOutcome{"payload-altered", fmt.Sprint(tgt.UnknownPayloads)}
 	}
